@@ -113,6 +113,30 @@ def nested_blocks(rng):
     return prog
 
 
+def infix_binders(rng):
+    """Operands of an infix assertion are scopes of their own: a name bound in one operand shadows an outer one there and
+    only there -- the other operand, and whatever follows the assertion, still read the outer binding."""
+    I = lambda v: ("int", v, "dec")
+    nm, other = rng.sample(["A", "B", "Q", "Zed"], 2)
+    v0, v1 = rng.sample([1, 2, 3, 5, 7], 2)
+    inner = ("cat", [("let", (nm,), rng.choice([I(v1), ("alt", [I(v1), I(v0)]), ("cat", [I(v1), I(1), ("word", "add")])])), ("read", nm)])
+    outer_read = rng.choice([("read", nm), ("cat", [("read", nm), I(0), ("word", "add")])])
+    op = rng.choice(["==", "!=", "<", ">", "<=", ">="])
+    k = rng.random()
+    if k < 0.35:
+        ass = ("infix", inner, op, outer_read)                 # left binds, right reads the outer one
+    elif k < 0.7:
+        ass = ("infix", outer_read, op, inner)                 # right binds, left reads the outer one
+    elif k < 0.85:
+        ass = ("infix", inner, op, inner)                      # both bind the same name: two scopes, no rebinding
+    else:
+        ass = ("infix", ("cat", [("let", (other,), I(v1)), ("read", other)]), op, inner)
+    body = [("let", (nm,), rng.choice([I(v0), ("alt", [I(v0), I(v1)])])), ass, ("read", nm)]
+    if rng.random() < 0.5:
+        return ("cat", [rng.choice([I(v0), I(v1), ("alt", [I(v0), I(v1)])])] + body)
+    return ("cat", body)
+
+
 def job(payload):
     seed, count, opts = payload
     d = common.get_driver()
@@ -125,6 +149,8 @@ def job(payload):
         prog = g.program([])
         if rng.random() < 0.3:
             prog = nested_blocks(rng)
+        elif rng.random() < 0.12:
+            prog = infix_binders(rng)
         # make it binder heavy: wrap in extra binders around the program
         k = rng.random()
         if k < 0.3:
@@ -240,6 +266,11 @@ def negatives(prog, rng):
         out.append((("cat", [("close", "?", ("paren", (), ("cat", [l]))), ("read", l[1][0])]), l[1][0]))
         out.append((("cat", [("close", "*", ("paren", (), ("cat", [l]))), ("read", l[1][0])]), l[1][0]))
         out.append((("cat", [("block", (), ("cat", [l])), ("word", "drop"), ("read", l[1][0])]), l[1][0]))
+        # ... nor in the other operand of an infix assertion, nor after it
+        lr = ("cat", [l, ("read", l[1][0])])
+        out.append((("infix", lr, "==", ("read", l[1][0])), l[1][0]))
+        out.append((("infix", ("read", l[1][0]), "==", lr), l[1][0]))
+        out.append((("cat", [("infix", lr, "==", lr), ("read", l[1][0])]), l[1][0]))
         # (c) rebinding in one scope
         out.append((("cat", [l, l]), l[1][0]))
         out.append((("paren", (l[1][0],), ("cat", [l])), l[1][0]))
